@@ -747,6 +747,31 @@ func ruleReadFullEOF(r *Run) {
 		case c.Common().IsInvoke() && c.Common().Method.Name() == "Read" && c.Common().Method.Pkg() != nil && c.Common().Method.Pkg().Path() == "io":
 			return c.Common().Value, true
 		}
+		// a transparent helper that reads from one of its parameters (an extracted grow-and-read block)
+		if callee := c.Common().StaticCallee(); callee != nil && !c.Common().IsInvoke() && p.isTransparent(callee) {
+			var rd ssa.Value
+			eachInstr(callee, func(y ssa.Instruction) {
+				yc, ok := y.(ssa.CallInstruction)
+				if !ok {
+					return
+				}
+				var v ssa.Value
+				switch {
+				case calleeName(yc) == "io.ReadFull" || calleeName(yc) == "io.ReadAtLeast":
+					v = yc.Common().Args[0]
+				case isRawRead(yc):
+					v = yc.Common().Value
+				}
+				if par, ok := v.(*ssa.Parameter); ok {
+					if a := argAt(c, paramIndex(par)); a != nil {
+						rd = a
+					}
+				}
+			})
+			if rd != nil {
+				return rd, true
+			}
+		}
 		return nil, false
 	}
 	for _, fn := range sortedFuncs(reach) {
